@@ -19,19 +19,20 @@ import (
 const c06Fam = gen.FAscii | gen.FHTML | gen.FNewline | gen.FWide | gen.FMD | gen.FCSV | gen.FCR | gen.FEmoji | gen.FEdge
 
 type c06Case struct {
-	Table   gen.TableSpec `json:"table"`
-	ID      gen.Q         `json:"id"`
-	Class   gen.Q         `json:"class"`
-	Caption gen.Q         `json:"caption"`
-	Gen     bool          `json:"row_class_generator"`
-	GenBase gen.Q         `json:"generator_output_prefix"`
-	TName   string        `json:"template_name"`
-	CtxKind int           `json:"generator_context_kind"` // 0 pointer, 1 nil, 2 string, 3 int, 4 slice, 5 map, 6 func, 7 struct value
-	Staged  bool          `json:"staged_wrapper_reused_with_other_settings_at_first_render"`
-	StageAt int           `json:"first_render_after_row_operations"`
-	PreGen  bool          `json:"generator_set_at_first_render"`
-	Shared  bool          `json:"rows_also_collected_into_a_second_table"`
-	Others  int           `json:"other_html_wrappers_with_generators_of_their_own_around_the_same_table"` // rendered before the judged render; 10+n: the judged wrapper also rendered once before them
+	Table       gen.TableSpec `json:"table"`
+	ID          gen.Q         `json:"id"`
+	Class       gen.Q         `json:"class"`
+	Caption     gen.Q         `json:"caption"`
+	Gen         bool          `json:"row_class_generator"`
+	GenBase     gen.Q         `json:"generator_output_prefix"`
+	TName       string        `json:"template_name"`
+	CtxKind     int           `json:"generator_context_kind"` // 0 pointer, 1 nil, 2 string, 3 int, 4 slice, 5 map, 6 func, 7 struct value
+	Staged      bool          `json:"staged_wrapper_reused_with_other_settings_at_first_render"`
+	StageAt     int           `json:"first_render_after_row_operations"`
+	PreGen      bool          `json:"generator_set_at_first_render"`
+	Shared      bool          `json:"rows_also_collected_into_a_second_table"`
+	CopyWrapper bool          `json:"judged_wrapper_is_a_by_value_copy_of_the_staged_wrapper"`
+	Others      int           `json:"other_html_wrappers_with_generators_of_their_own_around_the_same_table"` // rendered before the judged render; 10+n: the judged wrapper also rendered once before them
 }
 
 type c06Call struct {
@@ -183,8 +184,16 @@ func c06Check(c *Ctx, cs *c06Case, sample bool) {
 		o, _ := ht.Render()
 		c.Keep(o, "an earlier Render through the same wrapper")
 		b.Finalize()
-		ht.SetRowClassGenerator(nil, nil)
 		c.Rec.Count("staged_cases(render, change, render again through the same wrapper)", 1)
+		if cs.CopyWrapper {
+			// the judged wrapper is a by-value copy of the wrapper that rendered before (HTMLTable is a plain struct of
+			// exported settings): the copy has its own settings and its own generator from here on, the original
+			// keeps the earlier ones
+			cp := *ht
+			ht = &cp
+			c.Rec.Count("staged_cases_judged_through_a_by-value_copy_of_the_wrapper_that_rendered_before", 1)
+		}
+		ht.SetRowClassGenerator(nil, nil)
 	} else {
 		spec.Build(t0)
 	}
@@ -242,7 +251,8 @@ func c06Check(c *Ctx, cs *c06Case, sample bool) {
 			c.Rec.Violate("html:text-with-error", fmt.Sprintf("Render returned %d bytes together with error %v", len(out), err), cs)
 			return
 		}
-		c.Rec.Count("renders_refused", 1)
+		// the statement is unconditional: for any strings the output consists of the skeleton
+		c.Rec.Violate("html:refused-although-in-domain", fmt.Sprintf("the html renderer refused the table: %v", err), cs)
 		return
 	}
 	for _, txts := range append(textsOf(spec), spec.HeaderTexts(), []string{string(cs.ID), string(cs.Class), string(cs.Caption), string(cs.GenBase)}) {
@@ -453,6 +463,7 @@ func c06Random(c *Ctx, i int, r *gen.R) {
 	}
 	if r.Chance(1, 2) {
 		cs.Staged, cs.StageAt, cs.PreGen = true, r.Range(0, len(spec.Rows)), r.Bool()
+		cs.CopyWrapper = r.Chance(1, 6)
 	}
 	cs.Shared = r.Chance(1, 6)
 	if r.Chance(1, 4) {
